@@ -530,6 +530,9 @@ int64_t cmi_pool_acquire_inner(struct cmb_resourcepool *rpp,
                     /* A record existed, so there is an entry on the caller */
                     found = cmi_process_remove_holdable(caller, hrp);
                     cmb_assert_debug(found == true);
+
+                    /* Someone else may be waiting for what we put back */
+                    cmb_resourceguard_signal(&(rpp->guard));
                 }
             }
 
